@@ -325,6 +325,10 @@ def run_value(case, rec):
     ref, ev = oracle.intensity(mesh, qo, dim, cutoff)
     st = dict(oracle.stats)
     scale_I = float(np.max(np.abs(ref - mesh[1][0]))) if len(ref) else 0.0
+    if not np.isfinite(scale_I):
+        # (a reference that is NaN/inf somewhere: the absolute allowance comes from the finite entries only)
+        fin_ = np.abs(ref - mesh[1][0])[np.isfinite(ref)]
+        scale_I = float(np.max(fin_)) if len(fin_) else 0.0
     ctx = {"model": name, "dim": dim, "pars": pars, "cutoff": cutoff, "lengths": lengths,
            "mesh_points": st["mesh_points"], "qualifying": st["qualifying"], "q": qo, "trunc": meta.get("trunc"),
            "trunc_par": meta.get("trunc_par")}
